@@ -17,7 +17,7 @@ PROPS['C20'] = {
     'quick_configs': ['default'],
     'thorough_configs': ['default', 'noalloc', 'nounicode', 'nostd'],
     'controls': [],
-    'floors': {'default': {'W1': 60, 'W1.bytes': 1, 'W2': 1, 'R10.4.hint': 1, 'SB2': 1, 'W4': 2, 'W2c': 1, 'X1': 3, 'X7': 13, 'INV.DiskSlice': 1}},
+    'floors': {'default': {'W1': 60, 'W1.bytes': 1, 'W2': 1, 'R10.4.hint': 1, 'SB2': 1, 'W4': 1, 'W2c': 1, 'X1': 3, 'X7': 8, 'INV.DiskSlice': 1}},
     'rule_text': 'one obligation per overflow/division/shift site of the sector/cluster/offset arithmetic '
                  '(boot_sector.rs geometry helpers, fs.rs offset_from_*/DiskSlice, table.rs get/set/find_free/alloc): '
                  'discharged by the interval analysis under validated-BPB invariants or a reasoned table entry; the '
@@ -271,7 +271,7 @@ PROPS['C08'] = {
     'quick_configs': ['default'],
     'thorough_configs': ALL,
     'controls': [],
-    'floors': {'default': {'X1': 3, 'X2': 4, 'X3': 8, 'X4': 2, 'R10.2': 1, 'T3b': 1, 'X7': 13, 'X8': 1, 'X9': 1, 'K6': 1}},
+    'floors': {'default': {'X1': 3, 'X2': 4, 'X3': 8, 'X4': 2, 'R10.2': 1, 'T3b': 1, 'X7': 8, 'X8': 1, 'X9': 1, 'K6': 1}},
     'rule_text': 'obligations: the three FAT-entry classification tables (each over the whole raw-value domain, by '
                  'partition walk), one per FAT32 entry test (mask), per format constant and byte predicate, the two '
                  'read-modify-write sites, the skipping rule and the FAT-width table over all 2^32 cluster counts; '
@@ -448,7 +448,7 @@ PROPS['C10'] = {
     'quick_configs': ['default'],
     'thorough_configs': ALL,
     'controls': [],
-    'floors': {'default': {'R10.1': 20, 'R10.2': 1, 'R10.3': 1, 'R10.4.hint': 1, 'X4': 3, 'X8': 1, 'X9': 1, 'X7': 13}},
+    'floors': {'default': {'R10.1': 20, 'R10.2': 1, 'R10.3': 1, 'R10.4.hint': 1, 'X4': 3, 'X8': 1, 'X9': 1, 'X7': 8}},
     'rule_text': 'obligations: one per monomorphic instance of a FAT writer (stream type must be the mirrored DiskSlice), '
                  'the two arms of the slice geometry, the two flag decoders, the replicated-write loop, the two '
                  'read-modify-write sites, format_fat and the allocator\'s hint clamp',
@@ -507,7 +507,7 @@ PROPS['C04'] = {
     'quick_configs': ['default'],
     'thorough_configs': ALL,
     'controls': ['P3'],
-    'floors': {'default': {'K1': 10, 'K3': 2, 'K4': 1, 'FT1': 1, 'K5': 5, 'K1b': 1, 'K6': 1}},
+    'floors': {'default': {'K1': 10, 'K3': 2, 'K4': 1, 'FT1': 1, 'K5': 3, 'K1b': 1, 'K6': 1}},
     'rule_text': 'obligations: 5 on-disk layouts x {encoder, decoder} compared field by field (78 specification fields) '
                  'with the Microsoft FAT specification table; entry-position and extent provenance; the FAT-width table; '
                  'the write-back must-calls shared with C14',
@@ -535,7 +535,7 @@ PROPS['C11'] = {
     'quick_configs': ['default'],
     'thorough_configs': ALL,
     'controls': ['R11.1', 'R11.2'],
-    'floors': {'default': {'R11.1': 6, 'R11.2.adapter': 1, 'R11.3': 4, 'R10.4.hint': 1, 'R3.8': 1, 'R10.2': 1, 'R11.4': 2, 'R11.5': 9, 'INV.DiskSlice': 1}},
+    'floors': {'default': {'R11.1': 6, 'R11.2.adapter': 1, 'R11.3': 4, 'R10.4.hint': 1, 'R3.8': 1, 'R10.2': 1, 'R11.4': 2, 'R11.5': 6, 'INV.DiskSlice': 1}},
     'rule_text': 'one obligation per raw device-write site (closed set; each must be dominated by a successful seek whose '
                  'offset provenance is in an allowed class), per clipping site (File::write, DiskSlice read/write/seek), '
                  'plus the allocator bounds (hint clamp, padding entries; C10 rules) and the truncate order (C03 rule)',
@@ -562,7 +562,7 @@ PROPS['C18'] = {
     'quick_configs': ['default'],
     'thorough_configs': ALL,
     'controls': [],
-    'floors': {'default': {'R18.1': 3, 'R18.2': 6, 'R18.4': 1, 'R18.5': 3, 'R18.6': 4, 'R18.3': 1, 'R18.7': 2, 'R18.5b': 3, 'R18.8': 2}},
+    'floors': {'default': {'R18.1': 3, 'R18.2': 6, 'R18.4': 1, 'R18.5': 3, 'R18.6': 4, 'R18.3': 1, 'R18.7': 2, 'R18.5b': 2, 'R18.8': 2}},
     'rule_text': 'obligations: one per clock read (must go through options.time_provider), per timestamp setter (closed '
                  'caller set from the mono call graph), the access-date option guard, the stamp-on-write must-call, the '
                  'rename-keeps-body shape and one per editor setter (its unchanged-test must cover every stored field)',
